@@ -208,6 +208,8 @@ def main_check(pid, tier, seed, replay=None):
         lines.append('KNOWN-FINDING: property=%s %s [%s] (%d witnesses this run)' % (
             pid, known_keys[k]['what'], k, n))
     rdir = os.path.join(VF_HOME, 'replays', pid)
+    if os.path.realpath(REPO) != '/repo':
+        rdir = os.path.join(tempfile.gettempdir(), 'vf_replays_alt', pid)
     seen_mech = set()
     nviol = 0
     for v in new_v:
@@ -250,8 +252,11 @@ def main_check(pid, tier, seed, replay=None):
               'level': getattr(mod, 'LEVEL', 'exploration'), 'coverage': cov,
               'assumptions': getattr(mod, 'ASSUMPTIONS', []), 'wall_s': round(wall, 2),
               'violations': nviol}
-        os.makedirs(os.path.join(VF_HOME, 'evidence'), exist_ok=True)
-        p = os.path.join(VF_HOME, 'evidence', pid + '.json')
+        evdir = os.path.join(VF_HOME, 'evidence')
+        if os.path.realpath(REPO) != '/repo':
+            evdir = os.path.join(tempfile.gettempdir(), 'vf_evidence_alt')   # runs against scratch trees are not evidence
+        os.makedirs(evdir, exist_ok=True)
+        p = os.path.join(evdir, pid + '.json')
         with open(p + '.tmp', 'w') as f:
             json.dump(ev, f, indent=1, default=str)
         os.replace(p + '.tmp', p)
